@@ -134,12 +134,15 @@ class Ctx:
         if z3.is_true(goal):
             # still count it: trivial obligations are discharged syntactically
             pass
+        if getattr(st, "qguards", None):
+            # raised while evaluating the body of a comprehension / any() / membership test: holds for every element in range
+            goal = z3.Implies(z3.And(*st.qguards), goal)
         line = line if line is not None else self.cur_line
         base = "%s/%s%s" % (self.funcname, kind, ("@%s" % line) if line is not None else "")
         if tag:
             base += "/" + tag
         path = self.path_id()
-        key = (base, path, text)
+        key = (base, path, text, goal.get_id())     # two different goals from one source line are both kept
         if key in self.ob_keys:
             return
         self.ob_keys.add(key)
